@@ -49,9 +49,9 @@ Definition guards_of_gen : guards :=
         extracted (gen/Signals.shapes) has the two-case select; the statement after Update is recorded by gen/Dispatch
         as "cmds<-:ctx" only when its select has the ctx.Done case *)
      g_batch_send := all_guarded ev_cmd_sends &&
-                     (match find (fun x => fst x =? "eventLoop:BatchMsg") Signals.shapes with
-                      | Some (_, b) => b =? "for _, cmd := range msg { select { case <-p.ctx.Done(): return model, nil case cmds <- cmd: } } ; continue"
-                      | None => false end);
+                     (match find (fun x => fst x =? "eventLoop:BatchMsg") Signals.shapes, find (fun x => fst x =? "eventLoop:BatchMsg") RefShapes.ref_shapes with
+                      | Some (_, b), Some (_, b0) => b =? b0          (* the frozen body: a two-case select with ctx.Done *)
+                      | _, _ => false end);
      g_cmd_send := all_guarded ev_cmd_sends && str_in "cmds<-:ctx" Dispatch.post_switch;
      g_sig_send := no_bare_send "handleSignals" && calls_send "handleSignals" && send_is_guarded && negb (existsb (fun f => String.prefix "bare-send:" f) facts);
      g_fin_broadcast := has_scall Lifecycle.shutdown_calls "" "finishOnce.Do:close(p.finished)";
